@@ -103,12 +103,32 @@ def run(chk, binary):
                     r = dr.cmd("query", text=q["text"], index="a", lang=LANGNAME[q["lang"]], start=1, end=1800000000000, timeout_ms=20000,
                                timeout=40)
             except vlib.DriverDead as e:
-                if e.kind == "hang":
-                    chk.violation("C17:exec:hang:" + q["lang"], "no answer within 40 s for %r" % q["text"], q)
-                else:
-                    chk.violation("C17:exec:process-died:" + q["lang"], "process died executing %r: %s" % (q["text"], e), q)
+                died = e
                 dr = vlib.Driver(binary)
                 dr.ok("init", dir=d, wait_ms=300)
+                if died.kind == "hang":
+                    # a verdict needs a reproduction: the same text on the fresh process (a one-off stall of a process that
+                    # has answered tens of thousands of queries under machine load is not a property of the query)
+                    again = 0
+                    for _ in range(2):
+                        try:
+                            if q["lang"] == "promql":
+                                r2 = dr.cmd("mquery", promql=q["text"], start=1699999000, end=1700003600, step=60, timeout=40)
+                            else:
+                                r2 = dr.cmd("query", text=q["text"], index="a", lang=LANGNAME[q["lang"]], start=1, end=1800000000000,
+                                            timeout_ms=20000, timeout=40)
+                            if isinstance(r2.get("res"), dict) and r2["res"].get("hang"):
+                                again += 1
+                        except vlib.DriverDead:
+                            again += 1
+                            dr = vlib.Driver(binary)
+                            dr.ok("init", dir=d, wait_ms=300)
+                    if again:
+                        chk.violation("C17:exec:hang:" + q["lang"], "no answer within 40 s for %r (reproduced %d of 2 times on a fresh process)" % (q["text"], again), q)
+                    else:
+                        chk.cov["grammar"].setdefault("stalls_not_reproduced", []).append(q["text"])
+                else:
+                    chk.violation("C17:exec:process-died:" + q["lang"], "process died executing %r: %s" % (q["text"], died), q)
                 continue
             nexec += 1
             res = r.get("res") or {}
